@@ -88,11 +88,22 @@ def extra(ctx, rng):
             k = rng.randint(1, min(len(pairs), 2 * n))
             graphs.append((n, rng.sample(pairs, k)))
     if quick:
-        small = [g for g in graphs if g[0] <= 2]
-        rest = [g for g in graphs if g[0] > 2]
-        graphs = small + rng.sample(rest, 260)
-    for (n, edges) in graphs:
-        for enc in (ENCODINGS if not quick else [rng.choice(ENCODINGS), "flat"]):
+        # all graphs over <= 3 actions; a sample of the larger ones
+        small = [g for g in graphs if g[0] <= 3]
+        rest = [g for g in graphs if g[0] > 3]
+        graphs = small + rng.sample(rest, 120)
+    for gi, (n, edges) in enumerate(graphs):
+        if not quick or n <= 2:
+            encs = ENCODINGS
+        else:
+            # two encodings per graph: one by rotation (so that every encoding meets every graph over the seeds), one
+            # at random; graphs in which two actions have the same dependencies always get the shared encoding too
+            encs = {ENCODINGS[(gi + ctx.seed) % len(ENCODINGS)], rng.choice(ENCODINGS)}
+            succs = [tuple(sorted(set(b for (x, b) in edges if x == a))) for a in range(n)]
+            if any(k and succs.count(k) >= 2 for k in succs):
+                encs.add("shared")
+            encs = sorted(encs)
+        for enc in encs:
             s = graph_scenario(n, edges, enc, rng)
             if S.has_duplicate_composite(s):
                 continue
